@@ -1400,14 +1400,23 @@ def check_C08(ctx):
             res.finding(f"class=inspection-raises-{e}", "a returned message cannot be inspected without raising", dict(op=l[:400]))
     # reader: terminates, never raises under IGNORE/LOG, only protocol errors under RAISE
     streams = [garbage_stream(ctx) for _ in range(ctx.n(300, 5000))]
+    # connections and files that end anywhere inside a frame (every protocol), delivered in arbitrary pieces
+    for _ in range(ctx.n(150, 2500)):
+        cs = clean_stream(ctx, rng.randrange(1, 4), corrupt_p=0.1)[1]
+        streams.append(cs[:rng.randrange(len(cs) + 1)])
     def variants(s):
-        return [("file", q, rng.choice([7, 7, 3, 6, 0]), rng.choice([1, 1, 0]), rng.choice([0, 1, 2, 3]), rng.choice([0, 1]), rng.choice([0, 1])) for q in (0, 1, 2)]
+        vs = [("file", q, rng.choice([7, 7, 3, 6, 0]), rng.choice([1, 1, 0]), rng.choice([0, 1, 2, 3]), rng.choice([0, 1]), rng.choice([0, 1])) for q in (0, 1, 2)]
+        sock = "sock:" + ",".join(str(rng.choice([1, 2, 3, 5, 8, 13, 40, 200])) for _ in range(rng.randrange(1, 6))) + rng.choice(["", "!"])
+        vs.append((sock, rng.choice([0, 1, 2]), rng.choice([7, 7, 3, 6, 0]), rng.choice([1, 1, 0]), rng.choice([0, 1, 2, 3]), rng.choice([0, 1]), rng.choice([0, 1])))
+        return vs
     rl, rmeta = readp_lines(ctx, streams, variants)
     rpy = do_corr(res, rl)
     allowed = UBXERRNAMES | set(canon.NCODES) | set(canon.RCODES)
     for (s, src, q, *_), a, l in zip(rmeta, rpy, rl):
         items, calls, raised, crashed = parse_readp(a)
-        if crashed != "none":
+        if crashed == "NonTermination":
+            res.finding(f"class=never-terminates;src={src.split(':')[0]}", "iteration does not terminate: the reader keeps asking a finished source for more", dict(op=l[:3000]))
+        elif crashed != "none":
             res.finding(f"class=reader-raises-{crashed};q={q}", "reader iteration raised a foreign exception", dict(op=l[:3000]))
         if raised != "none" and (q != 2 or raised not in allowed):
             res.finding(f"class=reader-raises-{raised};q={q}", "reader raised although errors are not to be raised", dict(op=l[:3000]))
@@ -1451,9 +1460,16 @@ def check_C09(ctx):
             if p != "ubx":
                 verd.append(f"{p}:{h}={canon.verdict_for(p, bytes.fromhex(h), mode, val)}")
         ops.append(f"readp file {q} {filt} {parsing} {mode} {val} {bf} {canon.hx(sk)} {' '.join(verd)}".rstrip())
+    # the same cut seen through a connection that closes / times out there, delivered in arbitrary pieces
+    nfile = len(ops)
+    for i in rng.sample(range(nfile), min(nfile, ctx.n(600, 20000))):
+        t = ops[i].split(" ", 2)
+        sock = "sock:" + ",".join(str(rng.choice([1, 2, 3, 5, 8, 13, 40, 200])) for _ in range(rng.randrange(1, 6))) + rng.choice(["", "!"])
+        ops.append(f"readp {sock} {t[2]}")
+        meta.append(meta[i])
     py = do_corr(res, ops)
     full = {}
-    for (s, k, cfg, frames), a in zip(meta, py):
+    for (s, k, cfg, frames), a in zip(meta[:nfile], py[:nfile]):
         if k == len(s):
             full[(s, cfg)] = parse_readp(a)
     samples = []
@@ -1461,7 +1477,9 @@ def check_C09(ctx):
         items, calls, raised, crashed = parse_readp(a)
         fi = full[(s, cfg)][0]
         res.distinct((s, k))
-        if crashed != "none" or raised != "none":
+        if crashed == "NonTermination":
+            res.finding("class=cut-run-never-terminates", "reading a stream that ends inside a frame does not terminate", dict(op=l[:3000], cut=k))
+        elif crashed != "none" or raised != "none":
             res.finding(f"class=cut-run-raised-{crashed if crashed != 'none' else raised}", "reading a cut stream raised", dict(op=l[:3000], cut=k))
         elif items != fi[:len(items)]:
             res.finding("class=not-a-prefix", f"items of S[:{k}] are not a prefix of the items of S", dict(op=l[:3000], cut=k, full=s.hex()))
@@ -1576,6 +1594,7 @@ def check_C10(ctx):
     for _ in range(nreal):
         s = clean_stream(ctx, corrupt_p=0.1)[1]
         a, b = sk.socketpair()
+        a = canon.GuardSock(a)
         a.settimeout(0.3)
         end = rng.choice(["close", "timeout"])
         def sender(sock=b, data=s, end=end):
@@ -1593,6 +1612,8 @@ def check_C10(ctx):
         th.start()
         try:
             got = [(raw, str(p)) for raw, p in UBXReader(a, quitonerror=0, bufsize=rng.choice([1, 7, 4096]))]
+        except canon.NonTermination:
+            got = "never-returns"
         except Exception as e:  # noqa
             got = canon.excname(e)
         th.join()
